@@ -148,6 +148,19 @@ func main() {
 		}
 		lib.Breadcrumb(outPath, ref+" , "+base)
 		var v goja.Value
+		// the result is a function of (reference, base) only: other URL objects that were given the same strings and then
+		// changed through their setters (in this runtime, just before) must not show in it
+		if r.Chance(35) {
+			pol := base
+			if r.Chance(30) {
+				pol = ref
+			}
+			vm.RunString(fmt.Sprintf(`(function(){ try { var o = new URL("http://pollute.example/p"); o.href = %s; o.pathname = "/polluted/x/y"; o.host = "evil.test:8443"; o.search = "?token=1"; o.hash = "#h"; o.protocol = "https:";
+  var q = new URL(%s); q.pathname = "/q"; q.searchParams.append("k", "v"); q.port = "81"; } catch (e) {} })()`, js(pol), js(pol)))
+			out.Count("history", "polluted")
+		} else {
+			out.Count("history", "fresh")
+		}
 		if single {
 			// one argument: the absolute URL itself, or (sometimes) a string without a scheme, which must be rejected
 			if r.Chance(25) {
